@@ -5,7 +5,7 @@ PROPERTY = "C06"
 LEVEL = "other"
 CONTRACT_MODULES = ["contracts.c06"]
 H = "batchie.scoring.main.ChunkedScoresHolder."
-CARRIERS = [H + "__init__", H + "add_score", H + "plate_id_with_minimum_score", H + "combine", "batchie.data.ScreenBase.is_observed"]
+CARRIERS = [H + "__init__", H + "add_score", H + "plate_id_with_minimum_score", H + "combine", H + "concat", "batchie.data.ScreenBase.is_observed"]
 NATIVE = "c06.py"
 TECHNIQUE = ("contract-based deductive verification (pyvc + z3) of the scores holder and the minimum-score selection; score_chunk / "
              "select_next_plate / the two command lines by a bounded stand-in on the real functions")
@@ -13,7 +13,8 @@ EXPLANATION = (
     "PROVED (all inputs): ChunkedScoresHolder.__init__ / add_score (representation invariant, append semantics, earlier pairs "
     "kept), combine (pairs of self followed by pairs of other; returns self), plate_id_with_minimum_score (requires some scored "
     "eligible id; the result is a scored id of the eligible set and no eligible scored id has a strictly smaller score - "
-    "first-minimum argmin, ties allowed - with and without an eligible list; holder untouched), ScreenBase.is_observed on a "
+    "first-minimum argmin, ties allowed - with and without an eligible list; holder untouched), concat of 1, 2 and 3 chunk tables "
+    "(contents symbolic): every (plate, score) pair of every table exactly once, in order, ScreenBase.is_observed on a "
     "view (all selected rows observed). Contracts for select_next_plate (policy abstracted as 'returns a sub-collection of its "
     "unobserved_plates argument') and the comprehension/sorted/array_split machinery exist (contracts/c06.py, pyvc/lib/comp.py) "
     "and discharge most of their obligations, but the membership chain through filter + sorted + policy does not discharge "
